@@ -29,7 +29,7 @@ LEVEL_NOTE = ("fake API channel (backlog kept far below RECEIVER_MAX_SIZE); the 
               "harness lets the loop go idle; otherwise contiguity from the observed start is asserted")
 RULE = ("seeded schedules; distinct = canonical schedule JSON; non-trivial = >=2 subscriptions arriving at different "
         "message indices (i.e. >=1 hand-over while an existing stream is live)")
-REQUIRED_BUCKETS = ["kind:meter", "kind:inverter", "kind:battery", "kind:ev", "subscription-before-first-message",
+REQUIRED_BUCKETS = ["kind:meter", "kind:inverter", "kind:battery", "kind:ev", "kind:pipeline", "pipeline-burst>50", "subscription-before-first-message",
                     "subscription-between-messages", "back-to-back-requests", "duplicate-request",
                     "unknown-component-request", "hand-over-with-live-stream", "two-namespaces-same-metric"]
 REQUIRED_COUNTERS = ["streams_checked", "samples_checked", "schedules_run"]
@@ -71,7 +71,7 @@ def _val(n: int, kind: str, mi: int) -> float:
     return 0.0 if (n + mi) % 7 == 0 else n + (mi + 1) / 100.0
 
 
-def _mkmsg(kind: str, n: int) -> Any:
+def _mkmsg(kind: str, n: int, cid: int | None = None) -> Any:
     import dataclasses
 
     from frequenz.client.microgrid import (EVChargerCableState, EVChargerComponentState,
@@ -105,6 +105,8 @@ def _mkmsg(kind: str, n: int) -> Any:
             t = list(fields.get(attr, z))
             t[idx] = _val(n, kind, mi)
             fields[attr] = tuple(t)
+    if cid is not None:
+        fields["component_id"] = cid
     return dataclasses.replace(m, **fields)
 
 
@@ -115,6 +117,11 @@ def budget(tier: str) -> dict[str, Any]:
 
 
 def gen(rng: Any, tier: str, i: int) -> Any:
+    if rng.random() < 0.04:
+        # the same actor as the microgrid data pipeline wires it: a start-up burst of many subscriptions sent back to
+        # back through _DataPipeline._data_sourcing_request_sender()
+        return {"kind": "pipeline", "ncomp": 9, "nsub": rng.choice([8, 30, 50, 51, 64, 100, 130]), "nmsg": rng.randint(3, 8),
+                "pseed": rng.randrange(1 << 30)}
     kind = rng.choice(["meter", "inverter", "battery", "ev"])
     nmsg = rng.randint(10, 40)
     nm = len(METRIC_NAMES[kind])
@@ -195,7 +202,85 @@ async def _drive(case: dict[str, Any], out: dict[str, Any]) -> None:
     await actor.stop()
 
 
+async def _drive_pipeline(case: dict[str, Any], out: dict[str, Any]) -> None:
+    import random
+    from types import SimpleNamespace
+
+    from frequenz.client.microgrid import Component, ComponentCategory
+    from frequenz.quantities import Quantity
+
+    import frequenz.sdk.microgrid  # noqa: F401
+    from frequenz.sdk.microgrid import connection_manager
+    from frequenz.sdk.microgrid._data_pipeline import _DataPipeline
+    from frequenz.sdk.microgrid._data_sourcing import ComponentMetricRequest
+    from frequenz.sdk.timeseries import Sample
+    from frequenz.sdk.timeseries._resampling import ResamplerConfig
+
+    cids = [10 + j for j in range(case["ncomp"])]
+    comps = [Component(1, ComponentCategory.GRID)] + [Component(c, ComponentCategory.METER) for c in cids]
+    api = fakes.FakeApi(comps)
+    api.rx_limit = 500
+    connection_manager._CONNECTION_MANAGER = SimpleNamespace(component_graph=None, api_client=api)  # noqa: SLF001
+    dp = _DataPipeline(ResamplerConfig(resampling_period=timedelta(seconds=1)))
+    tx = dp._data_sourcing_request_sender()  # noqa: SLF001  (starts the DataSourcingActor like every pool/formula does)
+    reg = dp._channel_registry  # noqa: SLF001
+    mets = _metrics("meter")
+    pairs = [(c, mi) for c in cids for mi in range(len(mets))]
+    random.Random(case["pseed"]).shuffle(pairs)
+    pairs = pairs[: case["nsub"]]
+    streams = out["streams"]
+    reqs = []
+    for c, mi in pairs:
+        req = ComponentMetricRequest("ns", c, mets[mi], None)
+        streams[(c, mi)] = reg.get_or_create(Sample[Quantity], req.get_channel_name()).new_receiver(limit=1000)
+        reqs.append(req)
+    for req in reqs:  # the burst: no suspension between the sends beyond what send() itself does
+        await tx.send(req)
+    await asyncio.sleep(1.0)
+    for n in range(case["nmsg"]):
+        for c in cids:
+            await api.feed(c, _mkmsg("meter", n, cid=c))
+        await asyncio.sleep(0.1)
+    await asyncio.sleep(1.0)
+    out["got"] = {}
+    for key, rx in streams.items():
+        lst = []
+        while rx._q:  # noqa: SLF001
+            x = rx.consume()
+            lst.append((round((x.timestamp - EPOCH).total_seconds()), None if x.value is None else x.value.base_value))
+        out["got"][key] = lst
+    await dp._stop()  # noqa: SLF001
+
+
+def _check_pipeline(case: dict[str, Any], rec: Any) -> None:
+    out: dict[str, Any] = {"streams": {}}
+    run_virtual(lambda: _drive_pipeline(case, out), monitor=LoopMonitor())
+    rec.bucket("kind:pipeline")
+    rec.bucket("pipeline-burst>50" if case["nsub"] > 50 else "pipeline-burst<=50")
+    rec.count("schedules_run")
+    silent = []
+    for (c, mi), got in out["got"].items():
+        rec.count("streams_checked")
+        rec.count("samples_checked", len(got))
+        exp = [(n, _val(n, "meter", mi)) for n in range(case["nmsg"])]
+        if not got:
+            silent.append([c, METRIC_NAMES["meter"][mi]])
+        elif [g[0] for g in got] != [e[0] for e in exp] or any(g[1] is None or abs(g[1] - e[1]) > 1e-9 for g, e in zip(got, exp)):
+            rec.violation("pipeline-stream-samples-differ-from-the-messages",
+                          {"component": c, "metric": METRIC_NAMES["meter"][mi], "got": got[:10], "expected": exp[:10]})
+            return
+    if silent:
+        rec.violation("subscribed-stream-received-nothing",
+                      {"via": "_DataPipeline._data_sourcing_request_sender", "subscriptions_in_burst": case["nsub"],
+                       "silent_streams": len(silent), "examples": silent[:5]})
+    rec.nontrivial(case["nsub"] > 1)
+    rec.observed({"burst": case["nsub"], "streams": len(out["got"]), "silent": len(silent)})
+
+
 def check(case: dict[str, Any], rec: Any) -> None:
+    if case["kind"] == "pipeline":
+        _check_pipeline(case, rec)
+        return
     kind, nmsg = case["kind"], case["nmsg"]
     rec.bucket("kind:" + kind)
     subs = case["subs"]
